@@ -228,7 +228,11 @@ def evaluate(ctx, checks, kind, sample, runner, st, info0):
             _v(ctx, "C08", checks, "second delete raised %s" % type(e).__name__, kind, sample, runner)
     # ---- C09
     if st.op == "save" and kind.padding and "C09" in checks and st.arg != "none" and st.mem:
-        if len(st.cb) != 1:
+        if kind.family == "ogg" and not st.cb and wb["padding"] is None:
+            # data behind the Opus comment list that has to be preserved (RFC 7845 5.2): nothing may be added behind it,
+            # so there is no padding to ask the callback about
+            ctx.count("c09:ogg-opaque-trailer")
+        elif len(st.cb) != 1:
             _v(ctx, "C09", checks, "padding callback called %d times" % len(st.cb), kind, sample, runner)
         else:
             p_in, size_in, r = st.cb[0]
@@ -255,10 +259,16 @@ def evaluate(ctx, checks, kind, sample, runner, st, info0):
                 if len(st.after) - v1d != len(st.before):
                     _v(ctx, "C09", checks, "returning info.padding changed the file size", kind, sample, runner,
                        {"info_padding": p_in, "delta": len(st.after) - len(st.before)})
-            if st.arg == "keep" and p_in >= 0 and kind.family == "ogg" and wb["padding"] is not None:
+            if (st.arg == "keep" or r == p_in) and p_in >= 0 and kind.family == "ogg" and wb["padding"] is not None:
+                # whatever the policy, a callback answering info.padding asks for a comment packet of the old size
                 if len(st.after) != len(st.before):
                     _v(ctx, "C09", checks, "returning info.padding changed the file size", kind, sample, runner,
                        {"info_padding": p_in, "delta": len(st.after) - len(st.before)})
+                else:
+                    msg = ogg_pages_in_place(wb, wa, st.before, st.after)
+                    if msg:
+                        _v(ctx, "C09", checks, "returning info.padding moved or altered data outside the comment packet", kind, sample, runner,
+                           {"info_padding": p_in, "detail": msg})
             if st.arg == "zero" and kind.family in CONTIGUOUS and wb["tags"] is not None and not (kind.family == "mp4" and wb["padding"] is None):
                 # with zero padding requested the file shrinks/grows by exactly info.padding
                 delta = len(st.before) - len(st.after)
@@ -269,6 +279,22 @@ def evaluate(ctx, checks, kind, sample, runner, st, info0):
                     _v(ctx, "C09", checks, "info.padding is not the space left in the old tag region", kind, sample, runner,
                        {"info_padding": p_in, "size_delta": delta - v1fix})
     return True
+
+
+def ogg_pages_in_place(wb, wa, before, after):
+    """Ogg, same-size save: every page keeps its offset and size, and the pages that carry no part of the comment packet
+    are byte-identical (None = ok, else message)"""
+    gb, ga = wb["extra"].get("geometry"), wa["extra"].get("geometry")
+    if gb is None or ga is None:
+        return None
+    if gb != ga:
+        k = next((i for i in range(min(len(gb), len(ga))) if gb[i] != ga[i]), min(len(gb), len(ga)))
+        return "page boundaries differ from page %d on (%d pages before, %d after)" % (k, len(gb), len(ga))
+    tagpages = set(wb["extra"].get("comment_pages") or [])
+    for i, (off, n) in enumerate(gb):
+        if i not in tagpages and before[off:off + n] != after[off:off + n]:
+            return "page %d at offset %d carries no comment data and was rewritten" % (i, off)
+    return None
 
 
 def c09_default_equivalence(ctx, checks, kind, sample, runner, st):
@@ -521,6 +547,10 @@ def shared_run(ctx, checks, nhist, nops, kinds=None, id3_opts=True, corr_policy=
     """the shared run restricted to the predicates in `checks`"""
     base = ctx.rng.randrange(1 << 30)
     n = 0
+    import time
+    budget = float(os.environ.get("VERIF_HISTORY_BUDGET_S", "2700" if corr_policy == "all" else "1e9"))
+    t_start = time.time()
+    targets = []
     for kname, kind in KINDS.items():
         if kinds and kname not in kinds:
             continue
@@ -531,18 +561,28 @@ def shared_run(ctx, checks, nhist, nops, kinds=None, id3_opts=True, corr_policy=
         for si, (sample, data) in enumerate(usable_samples(kind)):
             if "C07" in checks:
                 c07_scenario(ctx, checks, kind, sample, data)
-            for h in range(-len(CORE), nhist):
-                corr = corr_policy == "all" or (h < 0 and (si < 2 or sample.startswith("synth") or sample.startswith("id3prefix")) and len(data) < 40000)
-                hseed = (base + zlib.crc32(repr((kname, sample, h)).encode())) & 0x7FFFFFFF
-                runner, nontrivial = run_history(ctx, checks, kind, sample, data, hseed, nops, id3_opts=id3_opts and h % 2 == 1,
-                                                 core=(-h - 1 if h < 0 else None), corr=corr)
-                n += 1
-                ctx.oracle_cases += 1
-                ctx.count("kind:" + kname)
-                ctx.case((kname, sample, tuple(hist_desc(runner.steps))) if nontrivial else None,
-                         {"kind": kname, "sample": sample, "history": hist_desc(runner.steps), "final_size": len(runner.cur)} if n % 97 == 1 else None)
-                if "C07" in checks and runner.steps and not any(s.exc for s in runner.steps):
-                    c07_scenario(ctx, checks, kind, sample + "+history", runner.cur)
+            targets.append((kname, kind, si, sample, data))
+    # history index outermost: the deterministic core histories of every kind/sample first, then round after round of
+    # random histories, so that a wall-clock budget (thorough tier) thins every kind alike
+    rounds_done = 0
+    for h in range(-len(CORE), nhist):
+        if h >= 0 and time.time() - t_start > budget:
+            break
+        rounds_done += 1
+        for kname, kind, si, sample, data in targets:
+            corr = corr_policy == "all" or (h < 0 and (si < 2 or sample.startswith("synth") or sample.startswith("id3prefix")) and len(data) < 40000)
+            hseed = (base + zlib.crc32(repr((kname, sample, h)).encode())) & 0x7FFFFFFF
+            runner, nontrivial = run_history(ctx, checks, kind, sample, data, hseed, nops, id3_opts=id3_opts and h % 2 == 1,
+                                             core=(-h - 1 if h < 0 else None), corr=corr)
+            n += 1
+            ctx.oracle_cases += 1
+            ctx.count("kind:" + kname)
+            ctx.case((kname, sample, tuple(hist_desc(runner.steps))) if nontrivial else None,
+                     {"kind": kname, "sample": sample, "history": hist_desc(runner.steps), "final_size": len(runner.cur)} if n % 97 == 1 else None)
+            if "C07" in checks and runner.steps and not any(s.exc for s in runner.steps):
+                c07_scenario(ctx, checks, kind, sample + "+history", runner.cur)
+    ctx.notes["history_rounds"] = "%d of %d rounds of histories per sample run (core histories included; wall-clock budget %s s)" % (
+        rounds_done, nhist + len(CORE), "none" if budget > 1e8 else int(budget))
     if "C07" in checks:
         c07_order(ctx, checks, ctx.rng)
         if not kinds or "ID3" in kinds:
@@ -550,6 +590,9 @@ def shared_run(ctx, checks, nhist, nops, kinds=None, id3_opts=True, corr_policy=
     if not kinds:
         from . import directed
         directed.run(ctx, checks)
+    elif any(KINDS[k].family == "ogg" for k in kinds):
+        from . import directed
+        directed.run(ctx, checks, only=directed.OGG_SCENARIOS)
 
 
 C07_V1_WHAT = "C07 ID3: second save with the default policy changes the file (threshold moved by the ID3v1 tag removed by the first save)"
